@@ -164,27 +164,61 @@ def rule_bitwise(facts, rep):
         eff_law(facts, rep, "bitwise", b, [eff_val("a"), eff_val("b")], ["a", "b"], lambda r, fin: r, fn, f"per-bit:{law}",
                 f"{meth}(a, b) is {law} for all a, b (abstract evaluation to a bit-vector term, compared on the all-0/all-1 assignments)")
         rep.count(4)
-    # contains: (other & self) == other   ⇔ per bit b ⇒ a
+    # the two predicates, by abstract evaluation: the function's result must be ONE comparison `l == r` (or `!=`, negated) of two
+    # bit-vector terms — however it is reached (`(other & self) == other`, `other.remove(self).is_plain()`, a helper) — and that
+    # comparison must hold exactly when the law does: per bit position, "the two sides agree" is the law's bit function
+    import abseval
+    import bits as bv
+
+    def predicate(path, args):
+        seen = []
+
+        def cmp_(a_):
+            op, l, r = a_
+            if op not in ("Eq", "Ne"):
+                return None
+            seen.append((op, l, r))
+            return ("sym", f"cmp{len(seen) - 1}")
+        ev = abseval.Evaluator(facts, "anstyle", {"cmp": cmp_})
+        r = ev.call_fn("anstyle", path, args)
+        neg = False
+        while r[0] == "not" or (r[0] == "bool-not"):
+            r, neg = r[1], not neg
+        if not (r[0] == "sym" and str(r[1]).startswith("cmp")):
+            raise Unrecognised(f"the result is not a single comparison of bit sets ({str(r)[:60]})")
+        op, l, r_ = seen[int(r[1][3:])]
+        return l, r_, (op == "Eq") != neg
+    mask = MASK
+
+    def agree_table(l, r_, syms):
+        out = {}
+        for combo in __import__("itertools").product((0, mask), repeat=len(syms)):
+            asg = dict(zip(syms, combo))
+            out[combo] = ~(bv.value(l, asg, mask) ^ bv.value(r_, asg, mask)) & mask
+        return out
     b = facts.body("anstyle", E + "contains")
     rep.fn(b["path"])
-    e = ac.single_expr(b["hir"])
-    ok = False
-    if e.get("k") == "bin" and e["op"] == "Eq" and "callee" not in e:
-        l, r = bits(e["l"], env), bits(e["r"], env)
-        agree = ~(l ^ r) & MASK        # positions where the two sides agree
-        implies = (~B | A) & MASK      # b ⇒ a
-        ok = agree == implies
-    rep.check(ok, "bitwise", b["path"], "per-bit:b=>a (subset test)", "contains(self, other) holds iff every bit of other is in self", loc(b))
+    ok, why = False, ""
+    try:
+        l, r_, positive = predicate(b["path"], [eff_val("a"), eff_val("b")])
+        t = agree_table(l, r_, ["a", "b"])
+        ok = positive and all(t[(a_, b_)] == ((~b_ | a_) & mask) for a_ in (0, mask) for b_ in (0, mask))
+        why = f"compares {str(l)[:60]} with {str(r_)[:40]}"
+    except Unrecognised as ex:
+        why = f"not evaluable: {ex}"
+    rep.check(ok, "bitwise", b["path"], "per-bit:b=>a (subset test)", f"contains(self, other) holds iff every bit of other is in self; {why}", loc(b))
     rep.count(4)
-    # is_plain: self.0 == PLAIN.0
     b = facts.body("anstyle", E + "is_plain")
     rep.fn(b["path"])
-    e = ac.single_expr(b["hir"])
-    ok = False
-    if e.get("k") == "bin" and e["op"] == "Eq" and "callee" not in e:
-        l, r = bits(e["l"], env), bits(e["r"], env)
-        ok = {l, r} == {A, 0}
-    rep.check(ok, "bitwise", b["path"], "per-bit:a==0", "is_plain iff no bit set", loc(b))
+    ok, why = False, ""
+    try:
+        l, r_, positive = predicate(b["path"], [eff_val("a")])
+        t = agree_table(l, r_, ["a"])
+        ok = positive and all(t[(a_,)] == (~a_ & mask) for a_ in (0, mask))
+        why = f"compares {str(l)[:60]} with {str(r_)[:40]}"
+    except Unrecognised as ex:
+        why = f"not evaluable: {ex}"
+    rep.check(ok, "bitwise", b["path"], "per-bit:a==0", f"is_plain iff no bit set; {why}", loc(b))
     # new / clear: the empty set
     n = facts.body("anstyle", E + "new")
     eff_law(facts, rep, "bitwise", n, [], [], lambda r, fin: r, lambda: 0, "new-is-empty", "Effects::new() has no bit set")
@@ -273,9 +307,15 @@ def rule_operators(facts, rep):
     rep.check(not bad and n_cases >= 9, "operators", b["path"], "compares-with-from(effects)",
               f"style == effects iff style == Style::from(effects) (no colours, the same effects): {bad[:2]}", loc(b))
     b = body(f"<{STY} as core::convert::From<{EFFT}>>::from")
-    e = ac.single_expr(b["hir"])
-    ok = hir.is_call(e, S + "effects") and hir.is_call(hir.simp(e["args"][0]), S + "new") and hir.is_local(e["args"][1], b["params"][0]["name"])
-    rep.check(ok, "operators", b["path"], "new().effects(e)", "no colours, exactly these effects", loc(b))
+    # by value: no colours, exactly these effects (Style::new().effects(e), a struct update of a PLAIN constant, a literal)
+    ok, why = False, ""
+    try:
+        r, _ = run_fn(facts, b["path"], [eff_val("a")])
+        ok = r == ("rec", {"fg": ("none",), "bg": ("none",), "underline": ("none",), "effects": eff_val("a")})
+        why = "" if ok else f"result {str(r)[:160]}"
+    except Unrecognised as ex:
+        why = f"not evaluable: {ex}"
+    rep.check(ok, "operators", b["path"], "new().effects(e)", f"no colours, exactly these effects {why}", loc(b))
 
 
 def rule_iterators(facts, rep):
@@ -414,12 +454,14 @@ def rule_wiring(facts, rep):
             why = f"not evaluable: {ex}"
         rep.check(ok, "wiring", b["path"], f"inserts-{const}", f"`{meth}()` leaves the colours alone and makes effects a|{const} for all a {why}", loc(b))
     n = facts.body("anstyle", S + "new")
-    e = ac.single_expr(n["hir"])
-    ok = e.get("k") == "struct"
-    if ok:
-        f = {x["name"]: hir.simp(x["e"]) for x in e["fields"]}
-        ok = all(hir.is_def(f.get(k), "Option::None") for k in ("fg", "bg", "underline")) and hir.is_call(f.get("effects"), E + "new") and len(f) == 4
-    rep.check(ok, "wiring", n["path"], "all-None-and-empty", "", loc(n))
+    ok, why = False, ""
+    try:
+        r, _ = run_fn(facts, n["path"], [])
+        ok = r == ("rec", {"fg": ("none",), "bg": ("none",), "underline": ("none",), "effects": ("ctor", EFFT, ("int", 0))})
+        why = "" if ok else f"result {str(r)[:160]}"
+    except Unrecognised as ex:
+        why = f"not evaluable: {ex}"
+    rep.check(ok, "wiring", n["path"], "all-None-and-empty", f"Style::new() by value {why}", loc(n))
     p = facts.body("anstyle", S + "is_plain")
     parts = hir.split_and(ac.single_expr(p["hir"]))
     got = set()
